@@ -104,6 +104,12 @@ func vMustProcess(pats []string, n vTreeNode) bool {
 	return true
 }
 
+// straddles: no component of the entry contains a match, yet a pattern matches
+// the entry's path across a separator (e.g. b.a against b/a).
+func vStraddles(pats []string, n vTreeNode) bool {
+	return n.depth == 2 && vMustProcess(pats, n) && vPartialMatch(pats, n.rel[0]+"/"+n.rel[1])
+}
+
 func vAbs(root string, n vTreeNode) string {
 	p := root
 	for _, c := range n.rel {
@@ -199,7 +205,7 @@ func VerifC08_Copy() {
 			verif.Assert("protected_entries_are_not_copied", !found)
 		}
 		if vMustProcess(pats, n) {
-			verif.Assert("unmatched_entries_are_copied", found)
+			verif.AssertKnown("unmatched_entries_are_copied", found, "KF-C08-pattern-matches-across-separator", vStraddles(pats, n))
 		}
 	}
 }
@@ -238,18 +244,29 @@ func VerifC08_Removal() {
 			verif.AssertKnown("protected_entries_survive", exists(p), "KF-C08-nested-protection-lost-in-removal", nested)
 			continue
 		}
-		hasProtectedChild := false
+		hasProtectedChild, hasStraddlingChild := false, false
 		for _, m := range nodes {
-			if m.depth == 2 && n.depth == 1 && m.rel[0] == n.rel[0] && vProtected(pats, m) {
-				hasProtectedChild = true
+			if m.depth == 2 && n.depth == 1 && m.rel[0] == n.rel[0] {
+				if vProtected(pats, m) {
+					hasProtectedChild = true
+				}
+				if vStraddles(pats, m) {
+					hasStraddlingChild = true // kept by the known finding, and its parent with it
+				}
 			}
 		}
 		if vMustProcess(pats, n) && !hasProtectedChild {
-			verif.Assert("unmatched_entries_are_removed", !exists(p))
+			verif.AssertKnown("unmatched_entries_are_removed", !exists(p), "KF-C08-pattern-matches-across-separator", vStraddles(pats, n) || hasStraddlingChild)
 		}
 	}
 	if !anyProtected && !clean {
-		verif.Assert("root_removed_when_nothing_protected", !exists(root))
+		anyStraddling := false
+		for _, n := range nodes {
+			if vStraddles(pats, n) {
+				anyStraddling = true
+			}
+		}
+		verif.AssertKnown("root_removed_when_nothing_protected", !exists(root), "KF-C08-pattern-matches-across-separator", anyStraddling)
 	}
 	if clean {
 		verif.Assert("clean_keeps_the_directory", exists(root))
